@@ -28,6 +28,8 @@ var ckeys = []ckey{
 	{"stats-http-port", "string", "stats-port"}, {"stats-http-addr", "string", "stats-addr"}, {"stats-format", "string", "stats-format"}, {"stats-enabled", "bool", "stats-enabled"},
 	{"pid-file", "string", "pid-file"}, {"log-file", "string", "log-file"}, {"verbose", "bool", "verbose"},
 	{"ipfix-tpl-cache-file", "string", "cache:ipfix"}, {"netflow9-tpl-cache-file", "string", "cache:netflow9"},
+	{"cpu-cap", "string", "cpu-cap"}, {"producer-enabled", "bool", "producer-enabled"}, {"dynamic-workers", "bool", "dynamic-workers"},
+	{"ipfix-rpc-enabled", "bool", "rpc-enabled"},
 }
 
 // built-in defaults as documented by the program itself (NewOptions); they are also read back
@@ -39,6 +41,7 @@ var builtin = map[string]string{
 	"stats-http-port": "8081", "stats-http-addr": "", "stats-format": "prometheus", "stats-enabled": "true",
 	"pid-file": "/var/run/vflow.pid", "log-file": "", "verbose": "false",
 	"ipfix-tpl-cache-file": "/tmp/vflow.templates", "netflow9-tpl-cache-file": "/tmp/netflowv9.templates",
+	"cpu-cap": "100%", "producer-enabled": "true", "dynamic-workers": "true", "ipfix-rpc-enabled": "true",
 }
 
 type cfgCase struct {
@@ -112,6 +115,8 @@ func buildCfgCase(seed int64, idx int, dir string, thorough bool) *cfgCase {
 				vals["env"], vals["file"], vals["flag"] = nextPort(), nextPort(), nextPort()
 			case "stats-addr":
 				vals["env"], vals["file"], vals["flag"] = "127.0.0.2", "127.0.0.3", "127.0.0.4"
+			case "cpu-cap":
+				vals["env"], vals["file"], vals["flag"] = "2", "3", "25%"
 			case "stats-format":
 				vals["env"], vals["file"], vals["flag"] = "rest", "restful", "rest"
 				if g.Bool() {
@@ -168,7 +173,7 @@ func runCfgCase(c *cfgCase, bin, dir string) (kind, what string, inconcl string)
 		return "", "", "sink: " + err.Error()
 	}
 	defer sink.close()
-	conf := map[string]string{"mq-name": "rawSocket", "mq-config-file": "mq.conf", "ipfix-rpc-enabled": "false", "dynamic-workers": "false"}
+	conf := map[string]string{"mq-name": "rawSocket", "mq-config-file": "mq.conf"}
 	for k, v := range c.File {
 		conf[k] = v
 	}
@@ -372,6 +377,94 @@ func runCfgCase(c *cfgCase, bin, dir string) (kind, what string, inconcl string)
 	if sawVerbose != (E["verbose"] == "true") {
 		addp("verbose", "verbose logging announced: %v, expected %s", sawVerbose, E["verbose"])
 	}
+	// cpu-cap through GOMAXPROCS as reported by /sys (rest format only)
+	if statsOn && E["stats-format"] != "prometheus" {
+		if r, err := httpc.Get(fmt.Sprintf("http://%s:%d/sys", statsAddr, statsPort)); err == nil {
+			var sys struct{ MaxProcs, NumLogicalCPU int }
+			json.NewDecoder(r.Body).Decode(&sys)
+			r.Body.Close()
+			want := sys.NumLogicalCPU
+			cc := E["cpu-cap"]
+			if strings.HasSuffix(cc, "%") {
+				pct, _ := strconv.Atoi(strings.TrimSuffix(cc, "%"))
+				want = int(float32(sys.NumLogicalCPU) * (float32(pct) / 100))
+			} else if n, err := strconv.Atoi(cc); err == nil {
+				want = n
+			}
+			if want > sys.NumLogicalCPU {
+				want = sys.NumLogicalCPU
+			}
+			obs["MaxProcs"] = strconv.Itoa(sys.MaxProcs)
+			if sys.NumLogicalCPU > 0 && sys.MaxProcs != want {
+				addp("cpu-cap", "GOMAXPROCS is %d, cpu-cap %q of %d CPUs means %d", sys.MaxProcs, cc, sys.NumLogicalCPU, want)
+			}
+		}
+	}
+	// producer-enabled: connections to the sink (one per enabled protocol)
+	{
+		enabledProtos := 0
+		for _, p := range []string{"ipfix", "sflow", "netflow5", "netflow9"} {
+			if E[p+"-enabled"] == "true" {
+				enabledProtos++
+			}
+		}
+		for w := 0; w < 100; w++ {
+			sink.mu.Lock()
+			n := sink.conns
+			sink.mu.Unlock()
+			if E["producer-enabled"] != "true" || n >= enabledProtos {
+				break
+			}
+			time.Sleep(10 * time.Millisecond)
+		}
+		sink.mu.Lock()
+		n := sink.conns
+		sink.mu.Unlock()
+		obs["producer connections"] = strconv.Itoa(n)
+		if E["producer-enabled"] == "true" && n != enabledProtos {
+			addp("producer-enabled", "%d producer connections at the sink, %d protocols enabled", n, enabledProtos)
+		}
+		if E["producer-enabled"] != "true" && n != 0 {
+			addp("producer-enabled", "producer disabled but %d connections reached the sink", n)
+		}
+	}
+	// dynamic-workers and ipfix-rpc-enabled through what the collector says about itself
+	{
+		lt := col.stderr()
+		if E["log-file"] != "" {
+			b, _ := os.ReadFile(E["log-file"])
+			lt += string(b)
+		}
+		anyProto := false
+		for _, p := range []string{"ipfix", "sflow", "netflow5", "netflow9"} {
+			if E[p+"-enabled"] == "true" {
+				anyProto = true
+			}
+		}
+		if anyProto {
+			saysDisabled := strings.Contains(lt, "dynamic worker disabled")
+			obs["dynamic workers disabled (log)"] = strconv.FormatBool(saysDisabled)
+			if saysDisabled == (E["dynamic-workers"] == "true") {
+				addp("dynamic-workers", "log says dynamic workers disabled: %v, expected setting %s", saysDisabled, E["dynamic-workers"])
+			}
+		}
+		if E["ipfix-enabled"] == "true" {
+			// when enabled the discovery is attempted (and reports that it cannot run here); when disabled nothing is logged
+			for w := 0; w < 100 && E["ipfix-rpc-enabled"] == "true" && !strings.Contains(lt, "RPC has been disabled") && !strings.Contains(lt, "ipfix RPC enabled"); w++ {
+				time.Sleep(10 * time.Millisecond)
+				lt = col.stderr()
+				if E["log-file"] != "" {
+					b, _ := os.ReadFile(E["log-file"])
+					lt += string(b)
+				}
+			}
+			tried := strings.Contains(lt, "RPC has been disabled") || strings.Contains(lt, "ipfix RPC enabled")
+			obs["rpc attempted (log)"] = strconv.FormatBool(tried)
+			if tried != (E["ipfix-rpc-enabled"] == "true") {
+				addp("ipfix-rpc-enabled", "peer RPC attempted: %v, expected setting %s", tried, E["ipfix-rpc-enabled"])
+			}
+		}
+	}
 	// shutdown: cache files written where configured
 	col.cmd.Process.Signal(syscall.SIGTERM)
 	if _, ok := col.wait(15 * time.Second); !ok {
@@ -473,7 +566,7 @@ func configMain(args mon.Args) {
 	}
 	run.Set("key_x_source_cells_covered", len(cells))
 	run.Set("keys_observed", len(ckeys))
-	run.SetRule("every observed key (4 UDP ports, 4 enable switches, 4 worker counts, stats port/address/format/enabled, pid file, log file, verbose, 2 cache files: integer, string and boolean kinds) gets an independent subset of {VFLOW_* environment, configuration file, command line} by a Latin square over 16 collector processes (every key meets all 8 subsets), with a distinct value per source (a boolean source always disagrees with the one it overrides); thorough adds random subsets/values and boolean spellings. The real binary is started and the effective value is read back behaviourally: UDP/TCP sockets of the process from /proc, Workers from /flow or /metrics, which endpoint answers, files that appear (pid, log, cache files after SIGTERM), the verbose banner. Expected = flag ?? file ?? env ?? built-in default. distinct = source assignment")
-	run.Assume("keys without an external observable (cpu-cap, *-udp-size, mirror workers, topics with the rawSocket backend) and the list-valued sflow-type-filter are not covered")
+	run.SetRule("every observed key (4 UDP ports, 4 enable switches, 4 worker counts, stats port/address/format/enabled, pid file, log file, verbose, 2 cache files, cpu-cap, producer-enabled, dynamic-workers, ipfix-rpc-enabled: integer, string and boolean kinds) gets an independent subset of {VFLOW_* environment, configuration file, command line} by a Latin square over 16 collector processes (every key meets all 8 subsets), with a distinct value per source (a boolean source always disagrees with the one it overrides); thorough adds random subsets/values and boolean spellings. The real binary is started and the effective value is read back behaviourally: UDP/TCP sockets of the process from /proc, Workers from /flow or /metrics, which endpoint answers, files that appear (pid, log, cache files after SIGTERM), the verbose banner. Expected = flag ?? file ?? env ?? built-in default. distinct = source assignment")
+	run.Assume("keys without an external observable (*-udp-size, mirror settings, topics with the rawSocket backend, mq-name) and the list-valued sflow-type-filter are not covered")
 	run.Finish()
 }
